@@ -12,6 +12,7 @@ pub mod c12;
 pub mod c15;
 pub mod c16;
 pub mod c17;
+pub mod c18;
 pub mod c19;
 pub mod c20;
 
@@ -39,5 +40,6 @@ pub fn all() -> Vec<Entry> {
         Entry { scn: &c11::C11Tcp, quick_runs: 20_000, thorough_runs: 1_000_000 },
         Entry { scn: &c01::C01Scopes, quick_runs: 60_000, thorough_runs: 3_000_000 },
         Entry { scn: &c17::C17Tracing, quick_runs: 40_000, thorough_runs: 2_000_000 },
+        Entry { scn: &c18::C18Http, quick_runs: 6_000, thorough_runs: 400_000 },
     ]
 }
